@@ -43,6 +43,7 @@ func genC15(cfg runCfg, e *emitter, rng *rand.Rand) {
 			sig += fmt.Sprintf("%s%d+%d;", strat[:1], len(dels), nAdd)
 			e.count("dels_" + strat)
 		}
+		ttlStr := ""
 		// the TTL facts
 		guarded(e, "genTTLs", func() {
 			cs2 := cs
@@ -59,7 +60,8 @@ func genC15(cfg runCfg, e *emitter, rng *rand.Rand) {
 					parts[i] = strings.Join(ps, ",")
 				}
 			}
-			e.line("TTLS gen %s", strings.Join(parts, "|"))
+			ttlStr = strings.Join(parts, "|")
+			e.line("TTLS gen %s", ttlStr)
 		})
 		for _, maxMem := range []int{1, 2, 3, 5, totalAdded, totalAdded + 5, 1000000} {
 			if maxMem < 1 {
@@ -69,6 +71,9 @@ func genC15(cfg runCfg, e *emitter, rng *rand.Rand) {
 				cs2 := cs
 				sch := cs2.GenerateCachingSchedule(maxMem)
 				e.line("SCHED m%d %d %s", maxMem, maxMem, schedStr(sch))
+				if ttlStr != "" {
+					e.line("EVICT m%d %d %s %s", maxMem, maxMem, ttlStr, schedStr(sch))
+				}
 				e.count("schedules")
 			})
 		}
